@@ -92,6 +92,14 @@ def saved_restored(ctx, fn: FunctionInfo, attr: str) -> bool:
                         and len(mci[0][2]) == 2:
                     # dict idiom: {m: m.attr for m in ...}; for m, v in saved.items(): m.attr = v
                     pair = (mci[0][2][0], mci[0][2][1])
+                if is_call(src, 'builtins.zip') and len(src[2]) == 2:
+                    # parallel lists: L = list(X.modules()); S = [m.attr for m in L];
+                    # for m, v in zip(L, S): m.attr = v
+                    L, S = src[2]
+                    if S[0] == 'comp' and len(S[2]) == 1 and len(S[3]) == 1 and not S[3][0][2] \
+                            and S[3][0][1] == L and S[2][0][0] == 'attr' and \
+                            S[2][0][1][0] == 'elem' and S[2][0][1][1] == L:
+                        pair = (S[2][0][1], S[2][0])
                 if pair is not None and pair[1] == ('attr', pair[0], attr):
                     # restore happens after the disturbing calls (loop may run 0 times only if
                     # the saved collection is empty)
